@@ -413,6 +413,52 @@ class C14(Check):
         return r
 
 
+def _startup_interrupt(p, backend: str, d: str):
+    import json
+    import signal
+    import subprocess
+    import time
+    import psutil
+    open(os.path.join(d, 'release'), 'w').close()       # tasks that begin run for 0.3 s
+    t0 = time.time()
+    try:
+        pp = psutil.Process(p.pid)
+        while time.time() - t0 < 60:
+            kids = pp.children(recursive=False)
+            if backend == 'spawn':
+                workers = 0
+                for c in kids:
+                    try:
+                        if 'spawn_main' in ' '.join(c.cmdline()):
+                            workers += 1
+                    except psutil.Error:
+                        pass
+            else:
+                workers = len(kids) - 3          # three manager server processes come first
+            if workers >= 1:
+                break
+            time.sleep(0.0005)
+        os.killpg(p.pid, signal.SIGINT)
+    except (psutil.Error, ProcessLookupError):
+        pass
+    try:
+        out, _ = p.communicate(timeout=90)
+    except subprocess.TimeoutExpired:
+        try:
+            os.killpg(p.pid, signal.SIGKILL)
+        except ProcessLookupError:
+            pass
+        return None
+    line = [x for x in out.splitlines() if x.startswith('SIGPROBE ')]
+    if not line:
+        return None
+    info = json.loads(line[0][9:])
+    time.sleep(0.2)
+    began = [i for i in range(3) if os.path.exists(os.path.join(d, f'started{i}'))]
+    done = [i for i in range(3) if os.path.exists(os.path.join(d, f'done{i}'))]
+    return info, began, done
+
+
 def _c14_batch_extra(self, tier):
     """S3: real SIGINT delivery (killpg) - single and double - at a controlled resting point of a real
     run: every worker is parked inside run() (marker files), so nothing depends on timing except the
@@ -428,7 +474,7 @@ def _c14_batch_extra(self, tier):
     samples = []
     n = 0
     for backend in ('fork', 'spawn'):
-        for mode in ('single', 'double'):
+        for mode in ('single', 'double', 'startup', 'startup'):
             d = tempfile.mkdtemp(prefix='simlab-c14real-', dir=scratch_root())
             try:
                 env = dict(os.environ)
@@ -436,6 +482,25 @@ def _c14_batch_extra(self, tier):
                 p = subprocess.Popen([sys.executable, os.path.join(VERIF_DIR, 'simlab', 'realsigint.py'), backend, d],
                                      stdout=subprocess.PIPE, stderr=subprocess.DEVNULL, text=True, env=env, start_new_session=True)
                 t0 = time.time()
+                if mode == 'startup':
+                    # a single SIGINT while the first task process(es) are being started (the instant the first
+                    # worker process exists); whatever the exact instant, the outcome must be KeyboardInterrupt
+                    # with every task that began finished and cached
+                    res = _startup_interrupt(p, backend, d)
+                    if res is None:
+                        vs.append(O.V('C14', 'real-probe-failed', f'real {backend} start-up run gave no result', backend=backend, mode=mode))
+                        continue
+                    n += 1
+                    info, began, done = res
+                    samples.append({'real_interrupt': mode, 'backend': backend, 'outcome': info['outcome'], 'tasks_begun': began,
+                                    'tasks_finished': done, 'is_cached': info['is_cached']})
+                    if info['outcome'] != 'KeyboardInterrupt':
+                        vs.append(O.V('C14', 'real-wrong-outcome', f'real {backend} run, SIGINT while task processes were being started: '
+                                      f'run_tasks ended with {info["outcome"]}', backend=backend, mode=mode))
+                    elif sorted(began) != sorted(done) or not all(info['is_cached'][i] for i in began):
+                        vs.append(O.V('C14', 'real-not-drained', f'real {backend} run, SIGINT while task processes were being started: tasks '
+                                      f'{began} began, {done} finished, is_cached={info["is_cached"]}', backend=backend, mode=mode))
+                    continue
                 while time.time() - t0 < 60 and not all(os.path.exists(os.path.join(d, f'started{i}')) for i in range(3)):
                     time.sleep(0.01)
                 if time.time() - t0 >= 60:
